@@ -795,5 +795,187 @@ def gen_C13(tier, seed):
     return {"reqs": reqs, "certs": [], "gen": g, "exhaustive": True}
 
 
+def custom_C15(run, chk):
+    """C15: proof stage (index arithmetic / well-formed matches on the model) + guard-page exploration of the real
+    code: every request is executed in a child process with the haystack flush against a PROT_NONE page on the
+    right and then on the left; a stray read is a SIGSEGV of the child; results are also compared with the model."""
+    import subprocess, vlib, os
+    a = chk.proof_stage(run)
+    g = Gen(run.seed)
+    q = run.tier == "quick"
+    cpu = vlib.index_resp(vlib.run_impl(["cpu x=1"], "cpu")[0]).get((0, "-"), "avx2=0 ssse3=0")
+    reqs = []
+    lens = list(range(0, 3 * 32 + 9)) if not q else list(range(0, 72))
+    variants = ";".join(PACKED_VARIANTS)
+    acf = cfgs(["nc.d.1.1.b", "c.d.1.1.b", "dfa.d.1.1.u", "auto.d.1.1.u", "nc.d.1.0.b"])
+    for n in lens:
+        for _ in range(2 if q else 5):
+            pats = packed_pats(g) if g.rng.random() < 0.6 else pre_pats(g)
+            r = g.rng.random()
+            if r < 0.4:
+                hay = bytes(g.rng.randrange(256) for _ in range(n))          # arbitrary bytes
+            else:
+                alpha, foreign = g.alphabet(pats)
+                hay = bytearray(bytes([foreign]) * n)
+                for _ in range(g.rng.randint(0, 3)):
+                    p = g.rng.choice(pats)
+                    if len(hay) >= len(p) and p:
+                        pos = g.rng.choice([0, len(hay) - len(p), g.rng.randint(0, len(hay) - len(p))])
+                        hay[pos:pos + len(p)] = p
+                hay = bytes(hay)
+            s, e = g.span(len(hay))
+            if s > e:
+                s, e = e, e
+            mk = g.rng.choice(["lf", "ll"])
+            kv = {"mk": mk, "pats": hxlist(pats), "hay": hx(hay), "s": s, "e": e, "api": "find", "pcfg": variants}
+            if len(pats) > 64:
+                kv["nolimits"] = 1
+            reqs.append(fmt_req("packed", kv) + " " + cpu)
+            kv2 = {"mk": g.rng.choice(["std", "lf", "ll"]), "pats": hxlist(pats), "hay": hx(hay), "s": s, "e": e, "cfgs": acf}
+            if g.rng.random() < 0.2:
+                kv2["fold"] = 1
+            reqs.append(fmt_req(g.rng.choice(["find", "iter"]), kv2))
+    os.makedirs(vlib.WORK, exist_ok=True)
+    rf = os.path.join(vlib.WORK, "req_C15.txt")
+    open(rf, "w").write("\n".join(reqs) + "\n")
+    p = subprocess.run([vlib.HARNESS, "guardchild", rf], capture_output=True, text=True, env=vlib.env())
+    out = p.stdout.splitlines()
+    crashed = p.returncode != 0
+    last_begin = None
+    impl = {}
+    for l in out:
+        if l.startswith("BEGIN "):
+            last_begin = int(l.split()[1]); continue
+        parts = l.split(" ", 2)
+        if len(parts) == 3:
+            impl[(int(parts[0]), parts[1])] = parts[2]
+    if crashed:
+        run.violation({"kind": "child process died (signal / abort) while searching a guard-page placed haystack",
+                       "returncode": p.returncode, "request": reqs[last_begin] if last_begin is not None else None,
+                       "cfg": "guardchild", "stderr": p.stderr[-500:]})
+    model = vlib.index_resp(vlib.run_model(reqs))
+    mism = []
+    panics = 0
+    for (ln, cfg), resp in sorted(impl.items()):
+        base = cfg[:-1]
+        exp = model.get((ln, base))
+        if resp == "panic":
+            panics += 1
+        if exp is not None and resp != exp:
+            r0 = reqs[ln]
+            mism.append({"req": r0, "cfg": base, "impl": resp, "model": exp, "line": ln})
+    run.cov.update({"evaluations": len(impl), "requests": len(reqs), "haystack_lengths": [lens[0], lens[-1]],
+                    "placements": ["flush against PROT_NONE page on the right", "flush against PROT_NONE page on the left"],
+                    "distinct_nontrivial": len(set(vlib.canonical(reqs[ln]) for (ln, c), r in impl.items()
+                                                   if r not in ("none", "[]", "unavailable"))),
+                    "panics": panics, "child_returncode": p.returncode, "cpu": cpu,
+                    "rule": "one case = one search of the real code on a guard-page placed haystack (two placements); "
+                            "non-trivial = the search reported at least one match; distinct by request text",
+                    "pattern_shape_histogram": g.shape_hist, "exhaustive": False,
+                    "explanation": "PARTIAL: Lean theorems cover the model's index arithmetic and match well-formedness; the loads "
+                                   "of the compiled unsafe SIMD code are observed under guard pages, not proved"})
+    run.samples += [r[:300] for r in reqs[:3]]
+    chk.handle_mismatches(run, mism)
+    if a["failures"] and not run.violations:
+        run.violation({"kind": "proof obligation no longer checks", "failures": a["failures"], "log": a["log"][-2000:]},
+                      "no-failing-input-found")
+    run.finish(chk.level_of("C15"), chk.ASSUME + ["guard pages detect reads outside the haystack's pages only at page "
+               "granularity on the far side; the two flush placements cover over-reads past the end and before the start"])
+
+
+AUDIT_PATTERNS = [
+    (r"\bCell\s*<|\bRefCell\b|\bUnsafeCell\b|\bOnceCell\b|\bOnceLock\b|\bLazyLock\b|\blazy_static\b", "interior mutability"),
+    (r"\bAtomic(?:Bool|Usize|U8|U16|U32|U64|I\w+|Ptr)\b", "atomic"),
+    (r"\bMutex\b|\bRwLock\b|\bCondvar\b", "lock"),
+    (r"\bstatic\s+mut\b", "static mut"),
+    (r"\bthread_local!", "thread local"),
+    (r"\.write\(|\.write_unaligned\(|\.write_volatile\(|copy_nonoverlapping|ptr::write|\bas\s+\*mut\b|\*mut\s+u8", "raw write"),
+]
+
+
+def source_audit_C17():
+    """syntactic sufficient condition for 'no hidden mutable state': none of the constructs above in /repo/src
+    outside #[cfg(aho_corasick_verif)] items, tests and comments; searcher traits still require Send + Sync"""
+    import re, os
+    hits, files = [], 0
+    for root, _, fs in os.walk("/repo/src"):
+        for f in fs:
+            if not f.endswith(".rs") or f in ("tests.rs", "verif.rs"):
+                continue
+            path = os.path.join(root, f)
+            files += 1
+            lines = open(path).read().split("\n")
+            skip_next_item = False
+            in_tests = False
+            for n, line in enumerate(lines, 1):
+                code = line.split("//")[0]
+                if "#[cfg(test)]" in code or "mod tests" in code:
+                    in_tests = True
+                if in_tests:
+                    continue
+                if "cfg(aho_corasick_verif)" in code:
+                    skip_next_item = 4      # the guarded statement / expression follows within a few lines
+                    continue
+                if skip_next_item:
+                    skip_next_item -= 1
+                    if "crate::verif::" in code or "stream_spare" in code or code.strip() in ("", "};", "}"):
+                        continue
+                for pat, what in AUDIT_PATTERNS:
+                    if re.search(pat, code):
+                        hits.append("%s:%d: %s: %s" % (os.path.relpath(path, "/repo"), n, what, line.strip()[:100]))
+    src = lambda rel: open(os.path.join("/repo/src", rel)).read()
+    bounds = []
+    if not re.search(r"trait PrefilterI:\s*\n?\s*Send \+ Sync", src("util/prefilter.rs")):
+        bounds.append("PrefilterI no longer requires Send + Sync")
+    if not re.search(r"trait SearcherT:\s*\n?\s*Debug \+ Send \+ Sync", src("packed/teddy/builder.rs")):
+        bounds.append("teddy SearcherT no longer requires Send + Sync")
+    if not re.search(r"trait AcAutomaton:\s*\n?\s*Automaton \+ Debug \+ Send \+ Sync", src("ahocorasick.rs")):
+        bounds.append("AcAutomaton no longer requires Send + Sync")
+    return files, hits, bounds
+
+
+def custom_C17(run, chk):
+    import vlib
+    a = chk.proof_stage(run)
+    g = Gen(run.seed)
+    q = run.tier == "quick"
+    files, hits, bounds = source_audit_C17()
+    run.cov["audit_files"] = files
+    run.cov["audit_hits"] = hits
+    for hmsg in hits[:5]:
+        run.violation({"kind": "source audit: construct that can carry hidden mutable state outside the cfg-guarded hooks",
+                       "where": hmsg}, "no-failing-input-found")
+    for bmsg in bounds:
+        run.violation({"kind": "source audit: thread-safety bound removed", "where": bmsg}, "no-failing-input-found")
+    cf = ["nc.d.1.1.b", "c.d.1.1.b", "dfa.d.1.1.u", "tnc.d.1.1.u", "tc.d.1.0.u", "tdfa.d.1.1.u", "auto.d.1.1.u", "auto.d.1.1.b"]
+    reqs = []
+    for _ in range(25 if q else 300):
+        pats = pre_pats(g) if g.rng.random() < 0.6 else g.pats()
+        mk = g.rng.choice(["std", "lf", "ll"])
+        hays = [pre_hay(g, pats) if g.rng.random() < 0.5 else g.hay(pats, 20) for _ in range(g.rng.randint(2, 5))]
+        kv = {"mk": mk, "pats": hxlist(pats), "hays": "|".join(hx(h) for h in hays), "threads": 8,
+              "reps": 10 if q else 40, "seed": g.rng.randint(1, 10 ** 6), "cfgs": cfgs(cf)}
+        reqs.append(fmt_req("threads", kv))
+    impl, model, mism = vlib.diff(reqs, "C17")
+    run.cov.update({"evaluations": len(impl), "requests": len(reqs),
+                    "distinct_nontrivial": len(set(r for r in impl.values() if ":" in r)),
+                    "threads": 8, "operations_per_thread": "reps x 3 x |haystacks| (find, iter, overlapping / earliest), seeded order",
+                    "rule": "one case = one searcher shared by 8 threads (odd threads on their own clone), each executing a seeded "
+                            "sequence of mixed operations; every result compared with the same operation run alone before and after; "
+                            "non-trivial = some operation reports a match",
+                    "pattern_shape_histogram": g.shape_hist, "exhaustive": False,
+                    "explanation": "PARTIAL: the model theorem (handles are independent, plain searches are pure functions) states "
+                                   "what is compared; data-race freedom of the compiled code is a property of the memory model that "
+                                   "no executable model exhibits - it is covered by the syntactic source audit (sufficient condition) "
+                                   "and observed by the concurrent differential run"})
+    run.samples += [r[:300] for r in reqs[:2]]
+    chk.handle_mismatches(run, mism)
+    if a["failures"] and not run.violations:
+        run.violation({"kind": "proof obligation no longer checks", "failures": a["failures"], "log": a["log"][-2000:]},
+                      "no-failing-input-found")
+    run.finish(chk.level_of("C17"), chk.ASSUME)
+
+
+CUSTOM = {"C15": custom_C15, "C17": custom_C17}
 GENS = {"C13": gen_C13, "C19": gen_C19, "C20": gen_C20, "C06": gen_C06, "C05": gen_C05, "C10": gen_C10, "C07": gen_C07, "C08": gen_C08, "C18": gen_C18, "C12": gen_C12, "C01": gen_C01, "C02": gen_C02, "C03": gen_C03, "C04": gen_C04, "C09": gen_C09,
         "C11": gen_C11, "C14": gen_C14, "C16": gen_C16}
